@@ -50,7 +50,7 @@ PALETTES = ["deep", "muted", "colorblind", "deep6", "pastel", "Set2"]
 # version strings another evo installation would have left behind (some sort
 # lexicographically above the current one, one is an empty torn write)
 OLD_VERSIONS = ["v1.12.0", "v1.30.2", "v1.31.0", "1.0", "", "v1.9.3",
-                "v1.4.0", "v1.40.0", "v1.31.10"]
+                "v1.4.0", "v1.40.0", "v1.31.10", "v1.31.1\n", " ", "v2.0.0"]
 COLORS = ["#ff0000", "#00ff00", "#0000ff", "red", "blue", "black"]
 
 
@@ -129,6 +129,14 @@ def gen_initial_state(rng, dflt, version):
         return {"state": "empty", "files": {}, "dirs": []}
     if r < 0.36:
         return {"state": "dir_only", "files": {}, "dirs": [EVO_DIR]}
+    if r < 0.39:
+        # the user (or a crash of an older evo) removed only the marker
+        s0 = dict(dflt)
+        for k in rng.sample(keys, rng.randint(0, 3)):
+            g = gen_group(rng, k, dflt[k])
+            s0[k] = user_value(dflt[k], g[1:], k)
+        return {"state": "settings_no_version",
+                "files": {SETTINGS_PATH: dumps(s0)}, "dirs": [EVO_DIR]}
     if r < 0.42:
         return {
             "state": "dir_version",
